@@ -1,0 +1,46 @@
+//go:build verif
+
+// Machine-checked contracts for package dvid (comment-only; read by /verif/cmd/govc).
+// With the build tag off this file is not compiled; with it on it adds nothing.
+
+package dvid
+
+//@ func InstanceID.Bytes
+//@   prop C06
+//@   ensures len(result) == 4 && fresh(result)
+//@   ensures be32(result, 0) == uint32(id)
+
+//@ func VersionID.Bytes
+//@   prop C06
+//@   ensures len(result) == 4 && fresh(result)
+//@   ensures be32(result, 0) == uint32(id)
+
+//@ func ClientID.Bytes
+//@   prop C06
+//@   ensures len(result) == 4 && fresh(result)
+//@   ensures be32(result, 0) == uint32(id)
+
+//@ func RepoID.Bytes
+//@   prop C06
+//@   ensures len(result) == 4 && fresh(result)
+//@   ensures be32(result, 0) == uint32(id)
+
+//@ func InstanceIDFromBytes
+//@   prop C06
+//@   requires len(b) >= 4
+//@   ensures uint32(result) == be32(b, 0)
+
+//@ func VersionIDFromBytes
+//@   prop C06
+//@   requires len(b) >= 4
+//@   ensures uint32(result) == be32(b, 0)
+
+//@ func ClientIDFromBytes
+//@   prop C06
+//@   requires len(b) >= 4
+//@   ensures uint32(result) == be32(b, 0)
+
+//@ func RepoIDFromBytes
+//@   prop C06
+//@   requires len(b) >= 4
+//@   ensures uint32(result) == be32(b, 0)
